@@ -128,6 +128,8 @@ def make_items(i, ws, wd):
     steps.append({"op": "change", "file": "main.td", "v": 2, "text": text2})
     steps.append({"op": "quiet"})
     srv = {"id": i, "kind": "session", "dir": d, "disk": files, "steps": steps, "quiet_ms": 30000}
+    if i % 2 == 1:
+        srv["client"] = "full"
     ide = {"id": i, "kind": "idequery", "files": {os.path.join(d, n): t for n, t in files.items()}, "root": os.path.join(d, "main.td"),
            "queries": queries}
     files2 = dict(files)
